@@ -214,5 +214,6 @@ func C05(c *core.Ctx) {
 	ruleCNorm(c)
 	c05Families(c)
 	runCompositions(c, ruleSet("A-REJ", "A-NOEXTRA", "A-NILG"), "minimum", "maximum", "bound")
+	ruleMultiSel(c, ruleSet("A-REJ", "A-NOEXTRA"), 3, "differing only in minimum", "differing only in maximum", "differing only in multipleOf")
 	c.Floor("families", c.Counts["members"], 300, "family members")
 }
